@@ -306,7 +306,7 @@ def check_C11(run, replay=None):
     evaluate_C11(run, cases)
     run.cov["rule"] = ("(a) histories of 2..8 steps: events issuing 1..5 operations each (HTTP descriptions with >= 2 extra headers through the command or capability API, key-value get/set/delete/exists/list, "
                        "time now/notify_after/notify_at/clear, render), resolutions of the k-th outstanding request with a seeded response, view reads; every history is replayed against a fresh Core 3x in-process and "
-                       "once in each of 2 further processes (the binary re-executes itself), and the bincode bytes of all effect batches (timer ids renumbered by first occurrence) and views are compared byte for byte; "
+                       "once in each of 2 further processes (the binary re-executes itself), and the bincode bytes of all effect batches (timer ids renumbered by first occurrence) and views (which contain the last HTTP Response as a serialized API value) are compared byte for byte; each child process also runs the history through the real Bridge and the RAW bytes it returns (effect ids, timer ids, view) are compared between the two processes; "
                        "(b) pairs of crux_http::Response built from header-call descriptions (same content respelled in shuffled order / mixed case / insert+append, single mutations, independent) with == evaluated both ways; "
                        "(c) pairs of protocol values with derived equality (10 types) from small domains, == both ways. A replay case is non-trivial when it has an event issuing an HTTP request or a timer; every eq case is; distinct by content.")
     run.assumptions += ["the app's update function is itself deterministic (the harness app is); address-, time- and thread-dependence cannot appear in a functional model and are covered only by the cross-process replays",
